@@ -78,11 +78,14 @@ def run_property(prop, tier, seed):
     all_obs = []
     for c in selected:
         # known findings: the refuted clause is re-proved outside the carve-out
-        kf = [f for f in known if f.get('contract') == c.id and f.get('status') == 'known']
+        kf = [f for f in known if f.get('contract') == c.id and f.get('status') == 'known' and f.get('carve_out')]
         c._carve = {}
         for f in kf:
             c._carve.setdefault(f['clause'], []).append(f['carve_out'])
         r = run_contract(table, reg, c)
+        # clauses that belong to other properties are not this check's business
+        r.obligations = [ob for ob in r.obligations
+                         if ob.kind != 'post' or prop in c.clause_props.get(ob.meta.get('cname'), [prop])]
         results.append(r)
         apply_carve_outs(table, reg, c, r)
         all_obs.extend(r.obligations)
@@ -139,6 +142,13 @@ def run_property(prop, tier, seed):
             if canary_sat == 0 and canary_total > 0 and canary_unknown == 0:
                 faults.append(f'{c.id}: canary (a deliberately false postcondition) was "proved" on every path - vacuous contract?')
             canaries_refuted += canary_sat
+        # known findings identified by (clause, path tag): the obligation is set aside, a line is printed while it is still refuted
+        for f in [f for f in known if f.get('contract') == c.id and f.get('status') == 'known' and f.get('path_tag')]:
+            for ob in list(failed):
+                if ob.meta.get('cname') == f['clause'] and f['path_tag'] in ob.meta.get('path_tags', []):
+                    failed.remove(ob)
+                    n_obl -= 1
+                    known_lines.append(f'KNOWN-FINDING: property={prop} {f["id"]} {f["what"]}')
         entry = {'contract': c.id, 'target': c.target, 'role': role, 'paths': r.path_count,
                  'obligations': len([o for o in r.obligations if o.expect == 'unsat']),
                  'failed': [o.name for o in failed], 'out_of_subset': r.out_of_subset, 'source': r.source,
@@ -336,7 +346,7 @@ def matches_carve(c, witness, known):
     for f in known:
         if f.get('contract') != c.id or f.get('status') != 'known':
             continue
-        fn = getattr(c.module.py, f['carve_out'], None)
+        fn = getattr(c.module.py, f.get('carve_out') or '', None)
         if fn is None:
             continue
         try:
@@ -376,7 +386,7 @@ def replay_model(c, ob, timeout_s):
         if model is None:
             return None
         decoded = vc.decode_inputs(model, ob.meta.get('inputs', {}))
-        out, raw = replay.run_decoded(c, decoded)
+        out, raw = replay.run_decoded(c, decoded, ob.meta.get('path_tags'))
     except Exception as e:
         return None
     if not out.get('requires_ok'):
@@ -384,7 +394,7 @@ def replay_model(c, ob, timeout_s):
     bad = [cn for cn, ok in out.get('clauses', {}).items() if ok is not True]
     if bad:
         return {'source': 'solver-model', 'inputs': {k_: native._short(v, 2000) for k_, v in raw.items()},
-                'decoded': decoded, 'raw': raw, 'out': out, 'failed': bad}
+                'decoded': decoded, 'raw': raw, 'out': out, 'failed': bad, 'tags': ob.meta.get('path_tags')}
     return None
 
 
@@ -400,7 +410,7 @@ def write_replay(prop, c, obname, witness, failed, reason):
            'reason': reason,
            'replay_cmd': f'./check --replay {os.path.relpath(path, VERIF)}'}
     if witness is not None:
-        doc['witness'] = {'source': witness['source'], 'inputs': witness['inputs'], 'decoded': witness.get('decoded'), 'regen': witness.get('regen'),
+        doc['witness'] = {'source': witness['source'], 'inputs': witness['inputs'], 'decoded': witness.get('decoded'), 'regen': witness.get('regen'), 'tags': witness.get('tags'),
                           'outcome': witness['out'], 'failed_clauses': witness['failed']}
     else:
         doc['witness'] = None
